@@ -107,11 +107,19 @@ Local Open Scope N_scope.
    positions are usize values below bytes.len(), get_occurrence_length's result <= 0x1000 as i32. *)
 Definition ISIZE_MAX : N := 2 ^ 63 - 1.
 
-Definition compress13_m (m : mode) (x : list N) : outcome (list N) :=
-  h <- calculate_lz13_header_m x ;;
-  let n := lenN x in
+(* result.reserve(12 + length + ((length + 7) >> 3)): the requested capacity as an observable.  The three usize
+   additions run in the profile; Vec::reserve itself panics ("capacity overflow") above isize::MAX. *)
+Definition compress13_reserve (m : mode) (n : N) : outcome N :=
   a <- add_w W64 m 12 n ;;
   b <- add_w W64 m n 7 ;;
-  cap <- add_w W64 m a (N.shiftr b 3) ;;
-  if ISIZE_MAX <? cap then Panic PAlloc
-  else Ok (emit_loop tok11 (header13 h n) (tokens 4096 x)).
+  c <- add_w W64 m a (N.shiftr b 3) ;;
+  if ISIZE_MAX <? c then Panic PAlloc else Ok c.
+
+(* out_buffer.reserve_exact(8 * 4 + 1): a constant *)
+Definition out_buffer_reserve : N := 8 * 4 + 1.
+
+Definition compress13_m (m : mode) (x : list N) : outcome (list N) :=
+  if too_large13 x then Err ETooLarge else                       (* the size guard of F21: length as u64 > 0xFFFF_FFFF *)
+  h <- calculate_lz13_header_m x ;;
+  _ <- compress13_reserve m (lenN x) ;;
+  Ok (emit_loop tok11 (header13 h (lenN x)) (tokens 4096 x)).
